@@ -22,7 +22,7 @@ func genPacket(g *genCtx) {
 	maxOps := 40
 	maxStr := 24
 	if g.thorough() {
-		nSeq, maxOps, maxStr = 12000, 200, 300
+		nSeq, maxOps, maxStr = 5000, 200, 300
 	}
 	r := g.rng(20)
 	alphas := [][]byte{{0, 1, 2}, {0, 'a', 'b', 0xff}, nil}
